@@ -57,8 +57,10 @@ def build(c, slabs, nh, PF, CF, cleaned, ABs, kinds, lc=False):
     hdr = catlib.header(c)
     files = {}
     src = {}
-    for s in slabs:
-        n = nh[s]
+    # the directory on "disk" always holds superslab 0 as well: a file-list load of superslabs [1, 2] must
+    # pair each particle file with the cleaning file of the same superslab NUMBER, not list position
+    for s in sorted(set(slabs) | {0}):
+        n = nh.get(s, 1)
         data = {'id': common.sym_array(f's{s}.id', (n,), 'i8'), 'N': common.sym_array(f's{s}.N', (n,), 'i8')}
         cdata = {'N_total': common.sym_array(f'c{s}.N_total', (n,), 'i8')}
         for v in common.cells(cdata['N_total']):
@@ -240,6 +242,9 @@ def items(tier, seed):
                                     cleaned=cleaned, ABs=ABs, mode=mode))
     out.append(dict(name='cleaned=1/A/posvel/slabs=2', slabs=[0, 1], nh={0: 1, 1: 1}, PF=1, CF=1, cleaned=True, ABs=('A',), mode='posvel'))
     out.append(dict(name='cleaned=0/A/pid/slabs=2', slabs=[0, 1], nh={0: 1, 1: 1}, PF=2, CF=1, cleaned=False, ABs=('A',), mode='pid'))
+    # file-list loads whose superslab numbers differ from their list positions
+    out.append(dict(name='cleaned=1/A/posvel/slabs=[1,2]', slabs=[1, 2], nh={1: 1, 2: 1}, PF=1, CF=1, cleaned=True, ABs=('A',), mode='posvel'))
+    out.append(dict(name='cleaned=1/A/pid/slabs=[2]', slabs=[2], nh={2: 1}, PF=1, CF=1, cleaned=True, ABs=('A',), mode='pid'))
     if tier == 'thorough':
         out.append(dict(name='cleaned=1/AB/posvel/slabs=2', slabs=[0, 1], nh={0: 2, 1: 1}, PF=3, CF=1, cleaned=True, ABs=('A', 'B'), mode='posvel'))
     for nh0 in (0, 1, 2):
@@ -273,7 +278,10 @@ def iv(k, default=0): return int(realcat.fl(m.get(k, default)))
 slabs, nhs, PF, CF, cleaned, ABs, mode = case['slabs'], case['halos'], case['PF'], case['CF'], case['cleaned'], case['AB'], case['mode']
 with tempfile.TemporaryDirectory() as d:
     conc, subs = {{}}, {{}}
-    for s, n in zip(slabs, nhs):
+    nhd = dict(zip(slabs, nhs))
+    disk = sorted(set(slabs) | {{0}})
+    for s in disk:
+        n = nhd.get(s, 1)
         cc = dict(N=np.arange(n, dtype=np.uint32) + 10, N_total=np.array([iv(f'c{{s}}.N_total[{{h}}]', 5) for h in range(n)], dtype=np.uint32))
         subs[s] = {{}}
         for AB in ABs:
@@ -287,7 +295,9 @@ with tempfile.TemporaryDirectory() as d:
             cpid = np.array([iv(f'c{{s}}.pid{{AB}}[{{i}}]', 9000 + i) for i in range(CF)], dtype=np.uint64)
             subs[s][AB] = (rv, crv, pid, cpid)
         conc[s] = cc
-    gdir = realcat.write_catalog(d, m, slabs=tuple(slabs), nh=dict(zip(slabs, nhs)), cleaned=cleaned, subsA=subs, concrete=conc)
+    gdir = realcat.write_catalog(d, m, slabs=tuple(disk), nh={{s: nhd.get(s, 1) for s in disk}}, cleaned=cleaned, subsA=subs, concrete=conc)
+    if list(slabs) != disk:        # file-list load of a subset of the directory
+        gdir = [os.path.join(gdir, 'halo_info', f'halo_info_{{s:03d}}.asdf') for s in slabs]
     sub = {{k: True for k in ABs}}; kw = {{}}
     if mode == 'posvel': sub.update(pos=True, vel=True)
     elif mode == 'pid': sub.update(pid=True)
